@@ -863,6 +863,108 @@ def c10(out, tier):
     return finish_mc(out, npaths, obl, len(units), [{"bounds": bounds}])
 
 
+def c17(out, tier):
+    from lib import tokchecks as TC
+    from mirsym import tok
+    import subprocess
+    TC_, tok_, prog, mir, ent, exe, exe_rel = xml_setup(out)
+    SRC = ["xml5ever/src/serialize/mod.rs", "xml5ever/src/tree_builder/mod.rs", "xml5ever/src/tokenizer/mod.rs"]
+    out.extra.update({"source_hash": C.src_hash(SRC), "source_files": SRC})
+    if not xml_self_validate(out, tok, prog, exe, 200 if tier == "quick" else 1000, C.seed() + 7):
+        return finish_mc(out, 0, 0, 0, ["self-validation failed"])
+    E = lambda p, u, l: {"p": p, "u": u, "l": l}
+    kt = 2 if tier == "quick" else 3
+    shapes = {
+        "plain text": [("start", E(None, None, "a"), []), ("text", kt), ("end", E(None, None, "a"))],
+        "prefixed element": [("start", E("p0", "u0", "a"), []), ("end", E("p0", "u0", "a"))],
+        "default namespace": [("start", E(None, "u0", "a"), []), ("end", E(None, "u0", "a"))],
+        "attribute value": [("start", E(None, None, "a"), [dict(E(None, None, "b"), vk=kt)]), ("end", E(None, None, "a"))],
+        "prefixed attribute": [("start", E(None, None, "a"), [dict(E("p1", "u1", "b"), v="v")]), ("end", E(None, None, "a"))],
+        "siblings with prefixes": [("start", E(None, None, "r"), []), ("start", E("p0", "u0", "a"), []), ("end", E("p0", "u0", "a")),
+                                   ("start", E("p1", "u1", "b"), []), ("end", E("p1", "u1", "b")), ("end", E(None, None, "r"))],
+        "nested prefixes (shadowing)": [("start", E("p0", "u0", "a"), []), ("start", E("p1", "u1", "b"), []), ("end", E("p1", "u1", "b")), ("end", E("p0", "u0", "a"))],
+        "default namespace then no namespace": [("start", E(None, "u0", "a"), []), ("start", E(None, None, "b"), []), ("end", E(None, None, "b")), ("end", E(None, "u0", "a"))],
+        "nested default namespaces": [("start", E(None, "u0", "a"), []), ("start", E(None, "u1", "b"), []), ("end", E(None, "u1", "b")), ("end", E(None, "u0", "a"))],
+        "element and attribute prefixes": [("start", E("p0", "u0", "a"), [dict(E("p1", "u1", "b"), v="v")]), ("end", E("p0", "u0", "a"))],
+        "two prefixed attributes": [("start", E(None, None, "a"), [dict(E("p0", "u0", "b"), v="v"), dict(E("p1", "u1", "c"), v="w")]), ("end", E(None, None, "a"))],
+        "text around a prefixed child": [("start", E(None, None, "a"), []), ("text", 1), ("start", E("p0", "u0", "b"), []), ("end", E("p0", "u0", "b")), ("text", 1), ("end", E(None, None, "a"))],
+        "default ns, no-ns child, default-ns grandchild": [("start", E(None, "u0", "a"), []), ("start", E(None, None, "b"), []), ("start", E(None, "u1", "c"), []),
+                                                            ("end", E(None, "u1", "c")), ("end", E(None, None, "b")), ("end", E(None, "u0", "a"))],
+        "prefixed attribute on nested element": [("start", E("p0", "u0", "a"), []), ("start", E(None, None, "b"), [dict(E("p1", "u1", "c"), vk=1)]), ("end", E(None, None, "b")), ("end", E("p0", "u0", "a"))],
+        "three siblings": [("start", E(None, None, "r"), []), ("start", E("p0", "u0", "a"), []), ("end", E("p0", "u0", "a")), ("start", E("p1", "u1", "b"), []), ("end", E("p1", "u1", "b")),
+                           ("start", E("p2", "u2", "c"), []), ("end", E("p2", "u2", "c")), ("end", E(None, None, "r"))],
+    }
+    extra = {"element and attribute prefixes": {"same_prefix_same_uri": [(("p0", "u0"), ("p1", "u1"))]},
+             "two prefixed attributes": {"same_prefix_same_uri": [(("p0", "u0"), ("p1", "u1"))]},
+             "prefixed attribute on nested element": {"same_prefix_same_uri": [(("p0", "u0"), ("p1", "u1"))]}}
+    units = [dict({"name": n, "shape": sh}, **extra.get(n, {})) for n, sh in shapes.items()]
+    res = TC.run_units_fn(TC.unit_c17, units, mir, ent, crate="xml5ever")
+    npaths = sum(r["paths"] for r in res)
+    obl = sum(r["obligations"] for r in res)
+    out.queries += sum(r["queries"] for r in res)
+    seen = set()
+    for r in res:
+        for e in r["errors"]:
+            out.inconclusive.append("%s: %s" % (r["unit"], e[-300:]))
+        for pn in r["panics"]:
+            out.inconclusive.append("%s: %s" % (r["unit"], pn["what"][:200]))
+        for v in r["violations"]:
+            key = "C17|%s" % v["shape"]
+            if key in seen:
+                continue
+            seen.add(key)
+            # native replay: the concrete tree through the real XmlSerializer, the output through the real XML parser
+            sh = shapes[v["shape"]]
+            sy = v["syms"]
+            val = lambda x: chr(sy[x]) if x else "-"
+            lines, want, nt = ["mode xmlser"], [], 0
+            for ei, ev in enumerate(sh):
+                if ev[0] == "text":
+                    t = bytes(v["texts"]["t%d" % nt]).decode("latin1").encode("utf-8")
+                    nt += 1
+                    lines.append("ev text " + t.hex())
+                    want.append("text " + t.hex())
+                else:
+                    e_ = ev[1]
+                    l_ = "ev %s %s %s %s" % (ev[0], val(e_["p"]), val(e_["u"]), e_["l"])
+                    if ev[0] == "start":
+                        al = []
+                        for ai, a_ in enumerate(ev[2]):
+                            tv = bytes(v["texts"]["av%d_%d" % (ei, ai)]).decode("latin1").encode("utf-8")
+                            l_ += " %s %s %s %s" % (val(a_["p"]), val(a_["u"]), a_["l"], tv.hex())
+                            al.append("{%s}%s=%s" % (chr(sy[a_["u"]]) if a_["u"] else "", a_["l"], tv.hex()))
+                        want.append("elem {%s}%s [%s]" % (chr(sy[e_["u"]]) if e_["u"] else "", e_["l"], " ".join(sorted(al))))
+                    else:
+                        want.append("end")
+                    lines.append(l_)
+            p_ = subprocess.run([exe], input=("\n".join(lines) + "\n").encode(), stdout=subprocess.PIPE, stderr=subprocess.PIPE, timeout=30)
+            got = p_.stdout.decode(errors="replace").splitlines()
+            ser = bytes.fromhex(got[0].split()[1]).decode("utf-8", "replace") if got and got[0].startswith("ser ") else "?"
+            # adjacent text nodes merge on re-parse; compare with merged expectation
+            def merge(xs):
+                o = []
+                for x in xs:
+                    if x.startswith("text ") and o and o[-1].startswith("text "):
+                        o[-1] += x[5:]
+                    elif x != "text ":
+                        o.append(x)
+                return o
+            if merge(got[1:]) != merge(want):
+                out.violation("XML serializer output %r does not parse back to the tree it was given (%s): expected %s, parsed %s" % (ser, v["shape"], merge(want), merge(got[1:])),
+                              {"engine": "mirsym", "kind": "xmlser", "case": "\n".join(lines), "native": got, "expected": want}, key)
+            else:
+                out.inconclusive.append("C17 counter-example for %r does not reproduce natively (%r)" % (v["shape"], ser))
+    bounds = ("%d tree shapes (element nesting, siblings, default / prefixed / no namespace, prefixed attributes); prefixes and namespace URIs are symbolic one-letter atoms "
+              "(so equal / different prefixes and URIs are solver cases), text and attribute values are %d symbolic ASCII characters (NUL excluded: not reachable by parsing)") % (len(shapes), kt)
+    out.units.append({"engine": "mirsym + z3", "what": "XmlSerializer::{new,start_elem,end_elem,write_text} (interpreted MIR) -> output characters -> interpreted XmlTokenizer -> lexical namespace resolution (in the check) == the input tree",
+                      "bounds": bounds, "work_units": len(res), "paths_explored": npaths, "obligations": obl})
+    out.extra["models_used"] = sorted(set(x for r in res for x in r.get("models_used", [])))
+    out.assumptions += M_ASSUME[:1] + ["the tree-builder half of re-parsing (namespace resolution by lexical scope) is done by a 30-line resolver in the check, not by xml5ever's tree builder (C16 is not claimed); the native replay of a counter-example does use the real parser",
+                                       "input trees satisfy what a parsed tree satisfies: names in one start tag that share a prefix share the URI; comments, PIs and doctypes are not covered",
+                                       "BTreeMap iteration order with symbolic keys is modelled as insertion order (only the order of xmlns declarations depends on it)"]
+    return finish_mc(out, npaths, obl, len(shapes), [{"bounds": bounds}])
+
+
 def c19(out, tier):
     TC, tok, prog, mir, ent, exe, exe_rel = tok_setup(out)
     out.extra["source_files"] = ["html5ever/src/encoding.rs"]
@@ -964,7 +1066,7 @@ def tok_finish_c01(out, TC, tok, prog, results, exe, exe_rel, bounds):
     return npaths, obl
 
 
-PROPS = {"C01": c01, "C10": c10, "C11": c11, "C12": c12, "C14": c14, "C15": c15, "C19": c19, "C07": c07, "C13": c13, "C03": c03, "C04": c04, "C08": c08, "C09": c09}
+PROPS = {"C01": c01, "C10": c10, "C11": c11, "C12": c12, "C17": c17, "C14": c14, "C15": c15, "C19": c19, "C07": c07, "C13": c13, "C03": c03, "C04": c04, "C08": c08, "C09": c09}
 
 
 def replay(path):
